@@ -35,6 +35,7 @@ DECIDING = ['udpcl.agent:Agent._send_transfer', 'udpcl.agent:Agent._recv_datagra
             'udpcl.agent:Agent._process_tx_queue', 'udpcl.agent:TxSendWait._update_send', 'udpcl.agent:range_encode']
 REQUIRED_OBS = ['stack_udpcl_pops', 'sends', 'receives_with_own_mtu', 'segmented_sends', 'segments_checked', 'receive_histories', 'multi_message_datagrams', 'repeats_injected',
                 'range_roundtrips']
+RULE = RULE + " Whole-stack runs (vf.stack): three hosts X-Y-Z, each a real BP agent bound through bp/cla.py and the in-process bus to real UDPCL/TCPCL agents over the simulated network (datagrams reordered and duplicated, BP and UDPCL MTUs, 2-14 bundles with report requests per scenario); judged per node, conditional on what the node's adaptor popped and what the agent handed to the adaptor's sender; the stack_* counters say what was compared."
 
 PEER = ('10.0.0.9', 5555)
 
